@@ -255,14 +255,11 @@ Definition old_agrees (c : hist) : bool :=
    servers receives, with all arguments, and the registry behind ends in the state instance B
    was read in ([c_snap]).  A stack with ocidebug is evaluated as the same stack without it. *)
 
-(* operations whose answer / trace the composed model is not compared on (each with its reason;
-   the harness counts them: harness/cmd/c03/cover.go mirrors this function) *)
-Definition stack_model_covers (c : hist) (o : op) : bool :=
-  (* PushBlob with a descriptor size (> 0) different from the content length (> 0): net/http's
-     transport notices the wrong body length while it is sending, so the server may or may not
-     have received (part of) the body when the client gives up - a race in the real stack
-     (recorded finding push-size); the model's transport refuses the request before sending *)
-  negb (push_size_mismatch o).
+(* operations whose answer / trace the composed model is not compared on: none.  (Until the
+   repair of ociclient.PushBlob - content of known length is held to the descriptor's size before
+   anything is sent - a PushBlob with a size different from the content length was left out:
+   net/http noticed the wrong length while sending.)  harness/cmd/c03/cover.go mirrors this. *)
+Definition stack_model_covers (c : hist) (o : op) : bool := true.
 
 Definition stack_agrees (c : hist) : bool :=
   negb (c_stack c)
